@@ -8,7 +8,7 @@ from libertem_blobfinder.base import correlation as bc
 PROP = "C14"
 LEAN_MODULE = "BlobfinderModel.Properties.C14"
 GEN_FILES = ["Eval", "Crop", "Patterns"]
-FRAGMENTS = ["shift", "log_scale", "crop_cell", "crop_coord_y", "crop_coord_x", "mask_center", "correlation_fft"]
+FRAGMENTS = ["shift", "log_scale", "crop_cell", "mask_center", "correlation_fft"]
 DRIVER = "drvcorr"
 RULE = ("correspondence: model crops / log arguments / correlation maps of a translated (resp. offset, cyclically rolled) "
         "small frame vs the untranslated one through the driver AND the same relation on the real cropping / log scaling "
